@@ -143,7 +143,7 @@ static int parse_wait_or_skip(
   if (param_count == 0) { bfd = 1; }
 
   add_bin16(asm_context, (y << 8) | (x << 1) | 1, IS_OPCODE);
-  add_bin16(asm_context, (bfd << 15) | (compare_x << 8) | (compare_y << 1) | is_skip, IS_OPCODE);
+  add_bin16(asm_context, (bfd << 15) | (compare_y << 8) | (compare_x << 1) | is_skip, IS_OPCODE);
 
   return 0;
 }
